@@ -190,3 +190,49 @@ def main(check_id, harness_path, tier, seed, meta, t_quick=25, t_thorough=120, k
             print("INCONCLUSIVE %s: %s" % (r["name"], r["msg"][:300]), file=sys.stderr)
         return 2
     return 0
+
+
+def run_extra(check_id, harness_path, tier, t_quick=25, t_thorough=90, label="crosshair_clause"):
+    """Run a CrossHair harness as an additional clause of an E1 check: results are merged into the evidence file that the
+    E1 part has just written; returns the exit code contribution (0 / 1 / 2)."""
+    T = t_thorough if tier == "thorough" else t_quick
+    conds = conditions(harness_path)
+    nproc = int(os.environ.get("VERIF_JOBS", "0")) or min(16, os.cpu_count() or 4)
+    with ThreadPoolExecutor(nproc) as ex:
+        results = list(ex.map(lambda c: run_condition(harness_path, c[0], c[1], T, per_path=max(5, T // 2)), conds))
+    violations, inconclusive = [], []
+    for r in results:
+        if r["verdict"] == "counterexample":
+            argsrc = parse_call(r["msg"], r["name"])
+            ok, rp, detail = replay_call(harness_path, r["name"], argsrc) if argsrc is not None else (None, None, "")
+            r["replay"], r["args"] = rp, argsrc
+            if ok:
+                violations.append(r)
+            else:
+                r["verdict"] = "unreproduced"
+                inconclusive.append(r)
+        elif r["verdict"] == "unable":
+            inconclusive.append(r)
+    for v in violations:
+        print("VIOLATION property=%s replay=%s" % (check_id, v["replay"]))
+        print("  condition=%s args=%s" % (v["name"], (v.get("args") or "")[:300]))
+    evp = os.path.join(EVIDENCE, "%s.json" % check_id)
+    try:
+        ev = json.load(open(evp))
+        ev["coverage"][label] = dict(
+            engine="crosshair-tool 0.0.110 (bounded bug-hunting unless 'confirmed')", per_condition_timeout_s=T,
+            conditions=[{k: r.get(k) for k in ("name", "verdict", "time_s", "msg")} for r in results],
+            confirmed=sum(1 for r in results if r["verdict"] == "confirmed"),
+            not_confirmed=sum(1 for r in results if r["verdict"] == "not-confirmed"))
+        ev["violations"] = ev.get("violations", 0) + len(violations)
+        json.dump(ev, open(evp, "w"), indent=1)
+    except Exception:
+        pass
+    print("%s %s: conditions=%d violations=%d inconclusive=%d" % (check_id, label, len(results), len(violations), len(inconclusive)))
+    if violations:
+        return 1
+    if inconclusive:
+        for r in inconclusive[:3]:
+            print("INCONCLUSIVE %s: %s" % (r["name"], r["msg"][:200]), file=sys.stderr)
+        return 2
+    return 0
